@@ -366,6 +366,10 @@ TreeSet_isub(BTree* self, PyObject* other)
     else {
         iter = PyObject_GetIter(other);
         if (iter == NULL) {
+            if (!PyErr_ExceptionMatches(PyExc_TypeError)) {
+                /* not "other is not iterable" but a real failure */
+                return NULL;
+            }
             PyErr_Clear();
             Py_INCREF(Py_NotImplemented);
             return Py_NotImplemented;
@@ -442,6 +446,10 @@ TreeSet_ixor(BTree* self, PyObject* other)
     else {
         iter = PyObject_GetIter(other);
         if (iter == NULL) {
+            if (!PyErr_ExceptionMatches(PyExc_TypeError)) {
+                /* not "other is not iterable" but a real failure */
+                return NULL;
+            }
             PyErr_Clear();
             Py_INCREF(Py_NotImplemented);
             return Py_NotImplemented;
@@ -512,6 +520,11 @@ TreeSet_iand(BTree* self, PyObject* other)
 
     iter = PyObject_GetIter(other);
     if (iter == NULL) {
+        Py_DECREF(tmp_list);
+        if (!PyErr_ExceptionMatches(PyExc_TypeError)) {
+            /* not "other is not iterable" but a real failure */
+            return NULL;
+        }
         PyErr_Clear();
         Py_INCREF(Py_NotImplemented);
         return Py_NotImplemented;
